@@ -357,8 +357,10 @@ impl<Tx: Debug + ProstMessage + Default, Rx: Debug + ProstMessage + Default> Cha
                         break;
                     }
                     _ => {
+                        // a broken channel must stay visible to its owner: keep ERROR set
+                        // (clearing everything also erased a HUP that had just been signalled)
                         self.interest = Ready::EMPTY;
-                        self.readiness = Ready::EMPTY;
+                        self.readiness = Ready::ERROR;
                         return Err(ChannelError::Read(read_error));
                     }
                 },
@@ -436,8 +438,10 @@ impl<Tx: Debug + ProstMessage + Default, Rx: Debug + ProstMessage + Default> Cha
                         break;
                     }
                     _ => {
+                        // a broken channel must stay visible to its owner: keep ERROR set
+                        // (clearing everything also erased a HUP that had just been signalled)
                         self.interest = Ready::EMPTY;
-                        self.readiness = Ready::EMPTY;
+                        self.readiness = Ready::ERROR;
                         return Err(ChannelError::Read(write_error));
                     }
                 },
